@@ -498,6 +498,8 @@ class InterpMachine(Machine):
         self.justUpdated = False
         self.traced = False
         self.buffers: dict = {}
+        self.lastQuestion: dict | None = None
+        self.prevOp = "-"
 
     def _newObject(self, adaptive: bool) -> Any:
         obj = self.cls(self.body, self.ctl, adaptive, self.cfg["n0"])
@@ -607,6 +609,12 @@ class InterpMachine(Machine):
             if self.justUpdated and rng.random() < 0.6:
                 # look at the object right after an adaptive update
                 op = rng.choice(["evaluate", "evaluate", "derivative"])
+            if self.lastQuestion is not None and self.prevOp in (
+                    "set_modes", "extend", "new_table", "write_read", "adaptive", "schedule",
+                    "read_missing") and rng.random() < 0.3:
+                # perturb, then ask exactly the same question again
+                self.ctx.probes["question_repeated_after_perturbation"] += 1
+                return dict(self.lastQuestion)
         if op == "new_table":
             if self.provider == "FreeEnergy":
                 if not self.traced and rng.random() < 0.8:
@@ -706,6 +714,9 @@ class InterpMachine(Machine):
     # ------------------------------------------------------------------ interpreter
     def execute(self, step: dict) -> Any:
         op = step["op"]
+        self.prevOp = op
+        if op in ("evaluate", "derivative") and step.get("form") != "big":
+            self.lastQuestion = {k: v for k, v in step.items() if k != "reuse"}
         self.ctl.calls = 0
         self.ctl.fired = False
         before = self.table()
